@@ -87,6 +87,25 @@ func dumpRegions(spec, cfgName string) {
 	}
 	loops := b.Loops(fn)
 	m := rootModel(rl)
+	if os.Getenv("EDCHECK_PROLOGUE") != "" {
+		hdr := map[*ssa.BasicBlock]bool{}
+		for _, l := range loops {
+			hdr[l.Header] = true
+		}
+		paths, err := pt.EnumerateRegion(fn, m, nil, func(bb *ssa.BasicBlock) bool { return hdr[bb] })
+		fmt.Println("prologue paths", len(paths), err)
+		for i, pa := range paths {
+			pt.NormalisePath(pa)
+			fmt.Printf("--- path %d: %s %v\n", i, pa.Kind, pa.Results)
+			for _, a := range pa.Atoms {
+				fmt.Printf("   atom %-5v %s\n", a.Val, a.Key)
+			}
+			for _, e := range pa.Events {
+				fmt.Printf("   ev %s args=%v addrs=%v\n", e.Callee, e.Args, e.Addrs)
+			}
+		}
+		return
+	}
 	for _, l := range loops {
 		par := -1
 		if l.Parent != nil {
